@@ -95,6 +95,17 @@ def run_impl(case, use_parser=False):
                 depth[0] -= 1
             # what a listener returns is nobody's business: False, 0, '' ... must not stop or alter the delivery
             return [None, False, False, 0, True, '', 'stop', []][f % 8]
+        if f in (2, 4):
+            # a decorated version (functools.wraps) of ANOTHER callback's callable: a different listener all the same
+            import functools
+            if f - 2 + (f // 4) not in cbs:
+                cbs[f - 2 + (f // 4)] = make_cb(f - 2 + (f // 4))      # 2 wraps callback 0 (a function), 4 wraps callback 3 (a bound method)
+            base = cbs[f - 2 + (f // 4)]()
+
+            @functools.wraps(base)
+            def deco(*a, **k):
+                return cb(*a, **k)
+            return lambda: deco
         if f % 2 == 0:
             return lambda: cb
         # odd callbacks are bound methods: equal, but a fresh object on every access (the emitter compares with ==/!=)
